@@ -1,5 +1,7 @@
 //! rvx — verification engines for ragc (see /verif/DESIGN.md). Usage: rvx <part> [args]
 mod common;
+mod arch;
+mod c01;
 mod c06;
 mod c09;
 mod c10;
@@ -7,11 +9,17 @@ mod c11;
 mod c12;
 mod c13;
 mod c20;
+mod o1;
+mod space;
 
 fn main() {
     let args: Vec<String> = std::env::args().collect();
     let part = args.get(1).map(|s| s.as_str()).unwrap_or("");
     let code = match part {
+        "c01" => c01::run(c01::Mode::RoundTrip),
+        "c02" => c01::run(c01::Mode::Format),
+        "c07" => c01::run(c01::Mode::Ranges),
+        "c18-table" => c01::run(c01::Mode::Table),
         "c06-op" => c06::run(),
         "c09" => c09::run(),
         "c10" => c10::run(),
